@@ -283,7 +283,7 @@ func Run(dir, tier string, seed int64) error {
 				if q.Signature.KeyInfo != nil {
 					var cs []string
 					for _, x := range q.Signature.KeyInfo.X509Data {
-						cs = append(cs, x.X509Certificate)
+						cs = append(cs, idp.CertText(x.X509Certificate))
 					}
 					ki = "(Some " + coqgen.BytesList(cs) + ")"
 				}
